@@ -1,4 +1,5 @@
 // Package vtime stands in for package time on the virtual clock of the virtual runtime.
+// Race-mode discipline: see package vrt.
 package vtime
 
 import (
@@ -36,12 +37,17 @@ var (
 	Local = time.Local
 )
 
-// Epoch is the real instant that virtual time 0 maps to (kept well after the zero Time so that
+// epochSec is the real instant that virtual time 0 maps to (kept well after the zero Time so that
 // IsZero, Before and After behave naturally).
 const epochSec = 1_000_000_000
 
-func Now() Time               { return time.Unix(epochSec, vrt.Now()) }
-func Since(t Time) Duration   { return Now().Sub(t) }
+//go:norace
+func Now() Time { return time.Unix(epochSec, vrt.Now()) }
+
+//go:norace
+func Since(t Time) Duration { return Now().Sub(t) }
+
+//go:norace
 func Until(t Time) Duration   { return t.Sub(Now()) }
 func Unix(s, ns int64) Time   { return time.Unix(s, ns) }
 func UnixMilli(ms int64) Time { return time.UnixMilli(ms) }
@@ -57,7 +63,17 @@ func LoadLocation(name string) (*Location, error) { return time.LoadLocation(nam
 // VirtualOf converts a virtual-clock reading (ns) to the Time Now() would return at that instant.
 func VirtualOf(ns int64) Time { return time.Unix(epochSec, ns) }
 
+type sleeper struct{ woke bool }
+
+//go:norace
+func (s *sleeper) Enabled() bool { return s.woke }
+
+//go:norace
+func (s *sleeper) FireTimer() { s.woke = true }
+
 // Sleep parks the caller until the virtual clock has advanced by d.
+//
+//go:norace
 func Sleep(d Duration) {
 	if !vrt.Active() {
 		if d > 0 {
@@ -69,30 +85,41 @@ func Sleep(d Duration) {
 		vrt.Yield()
 		return
 	}
-	woke := false
-	vrt.AddTimer(int64(d), "sleep", func() { woke = true })
-	vrt.Point("sleep", func() bool { return woke })
+	s := &sleeper{}
+	vrt.AddTimer(int64(d), "sleep", s)
+	vrt.Point("sleep", s)
 }
 
 // Timer mirrors time.Timer.
 type Timer struct {
-	C  *vchan.Chan[Time]
-	t  *vrt.Timer
-	f  func()
-	rt *vrt.Timer
+	C *vchan.Chan[Time]
+	t *vrt.Timer
+	f func()
 }
 
-func (t *Timer) arm(d Duration) {
+// FireTimer implements vrt.Firer.
+//
+//go:norace
+func (t *Timer) FireTimer() {
 	if t.f != nil {
-		f := t.f
-		t.t = vrt.AddTimer(int64(d), "afterfunc", func() { vrt.Go(f) })
+		vrt.Go(t.f)
 		return
 	}
-	c := t.C
-	t.t = vrt.AddTimer(int64(d), "timer", func() { c.TrySend(Now()) })
+	t.C.TrySend(Now())
+}
+
+//go:norace
+func (t *Timer) arm(d Duration) {
+	desc := "timer"
+	if t.f != nil {
+		desc = "afterfunc"
+	}
+	t.t = vrt.AddTimer(int64(d), desc, t)
 }
 
 // NewTimer is a visible operation (schedule point).
+//
+//go:norace
 func NewTimer(d Duration) *Timer {
 	vrt.Point("time.newtimer", nil)
 	t := &Timer{C: vchan.Make[Time](1)}
@@ -101,6 +128,8 @@ func NewTimer(d Duration) *Timer {
 }
 
 // AfterFunc runs f in its own thread after d.
+//
+//go:norace
 func AfterFunc(d Duration, f func()) *Timer {
 	vrt.Point("time.afterfunc", nil)
 	t := &Timer{f: f}
@@ -108,8 +137,10 @@ func AfterFunc(d Duration, f func()) *Timer {
 	return t
 }
 
+//go:norace
 func After(d Duration) *vchan.Chan[Time] { return NewTimer(d).C }
 
+//go:norace
 func (t *Timer) Stop() bool {
 	if vrt.Aborting() {
 		return false
@@ -118,6 +149,7 @@ func (t *Timer) Stop() bool {
 	return vrt.StopTimer(t.t)
 }
 
+//go:norace
 func (t *Timer) Reset(d Duration) bool {
 	vrt.Point("timer.reset", nil, t)
 	was := vrt.StopTimer(t.t)
@@ -133,15 +165,20 @@ type Ticker struct {
 	stopped bool
 }
 
-func (k *Ticker) arm() {
-	k.t = vrt.AddTimer(int64(k.d), "ticker", func() {
-		k.C.TrySend(Now())
-		if !k.stopped {
-			k.arm()
-		}
-	})
+// FireTimer implements vrt.Firer.
+//
+//go:norace
+func (k *Ticker) FireTimer() {
+	k.C.TrySend(Now())
+	if !k.stopped {
+		k.arm()
+	}
 }
 
+//go:norace
+func (k *Ticker) arm() { k.t = vrt.AddTimer(int64(k.d), "ticker", k) }
+
+//go:norace
 func NewTicker(d Duration) *Ticker {
 	if d <= 0 {
 		panic("non-positive interval for NewTicker")
@@ -152,6 +189,7 @@ func NewTicker(d Duration) *Ticker {
 	return k
 }
 
+//go:norace
 func Tick(d Duration) *vchan.Chan[Time] {
 	if d <= 0 {
 		return nil
@@ -159,6 +197,7 @@ func Tick(d Duration) *vchan.Chan[Time] {
 	return NewTicker(d).C
 }
 
+//go:norace
 func (k *Ticker) Stop() {
 	if vrt.Aborting() {
 		return
@@ -168,6 +207,7 @@ func (k *Ticker) Stop() {
 	vrt.StopTimer(k.t)
 }
 
+//go:norace
 func (k *Ticker) Reset(d Duration) {
 	vrt.Point("ticker.reset", nil, k)
 	vrt.StopTimer(k.t)
